@@ -4,7 +4,9 @@
 //   op :=  P:<key>:<value>   Put          (no observable)
 //          D:<key>           Delete       (no observable)
 //          H                 Hash()       -> <32-byte root hex>
-//          (every case ends with H; intermediate H calls exercise the Merkle-value cache)
+//          W                 WriteDirty(batcher): commits the trie, every node becomes clean and keeps its
+//                            cached Merkle value (no observable; no effect on the content)
+//          (every case ends with H; W followed by further Put/Delete/H exercises the Dirty/MerkleValue cache)
 //          layout <ver:0|1> <key>=<value> ...   trie.V<ver>.Root(NewEmptyTrie(), entries) -> <root hex>
 //   keys/values are hex, "-" = empty.
 // observed: the roots, one token per H, separated by spaces ("err"/"panic" end the case).
@@ -16,9 +18,24 @@ import (
 	"strings"
 	"testing"
 
+	"github.com/ChainSafe/gossamer/internal/database"
 	vu "github.com/ChainSafe/gossamer/internal/verifutil"
 	"github.com/ChainSafe/gossamer/pkg/trie"
 )
+
+// a throw-away database.Batch: WriteDirty only needs somewhere to put the encoded nodes
+type c01Batch struct{ n int }
+
+func (b *c01Batch) Put(_, v []byte) error { b.n += len(v); return nil }
+func (b *c01Batch) Del(_ []byte) error    { return nil }
+func (b *c01Batch) Flush() error          { return nil }
+func (b *c01Batch) Close() error          { return nil }
+func (b *c01Batch) ValueSize() int        { return b.n }
+func (b *c01Batch) Reset()                { b.n = 0 }
+
+type c01Batcher struct{}
+
+func (c01Batcher) NewBatch() database.Batch { return &c01Batch{} }
 
 func c01Run(in string) (out string) {
 	f := strings.Split(in, " ")
@@ -50,6 +67,11 @@ func c01Run(in string) (out string) {
 				}
 			case "D":
 				if err := tr.Delete(vu.UnHex(g[1])); err != nil {
+					toks = append(toks, "err")
+					return strings.Join(toks, " ")
+				}
+			case "W":
+				if err := tr.WriteDirty(c01Batcher{}); err != nil {
 					toks = append(toks, "err")
 					return strings.Join(toks, " ")
 				}
@@ -194,6 +216,9 @@ func c01GenCase(r *vu.RNG) string {
 		if r.Chance(1, 6) {
 			b.WriteString(" H")
 		}
+		if r.Chance(1, 5) {
+			b.WriteString(" W")
+		}
 	}
 	b.WriteString(" H")
 	return b.String()
@@ -207,6 +232,7 @@ func c01Generate(r *vu.RNG, n int, emit func(string)) {
 		"root 1 P:01:aa P:0102:bb P:0103:cc H D:0102 H D:0103 H D:01 H",
 		"root 0 P:ab12:01 P:ac34:02 H D:ab H",
 		"root 0 P:123456:01 P:123c56:02 H D:1c56 H",
+		"root 1 P:0101:aa P:0102:bb W P:0103:cc H W D:0102 H W P:01:dd H",
 		"layout 0 01=aa 0102=bb 01=cc",
 		"layout 1 -=00 00=01",
 	} {
